@@ -102,11 +102,10 @@ def extract(g, X):
 
     # ---- font.rs ------------------------------------------------------------------------------------------------
     def maxcid():
-        m = re.search(r"const\s+MAX_CID\s*:\s*usize\s*=\s*(" + X.LIT + r")\s*;", font)
-        b = X.fn_body(font, "check_cid")
-        if not re.search(r"if\s+cid\s*>\s*MAX_CID\s*\{", b):
-            raise ValueError("check_cid comparison")
-        return str(X.lit(m.group(1)))
+        # check_cid is RUN around MAX_CID: it must accept MAX_CID - 1 and MAX_CID and reject MAX_CID + 1 (polarity of the
+        # test, early return vs else branch are immaterial)
+        mx = X.int_value(X.const_expr(font, "MAX_CID"))
+        return str(X.accepted_upto(font, "check_cid", mx))
     g.attempt([("font_max_cid", "N")], "font: font.rs:MAX_CID/check_cid", maxcid)
 
     def wnew():
@@ -131,18 +130,38 @@ def extract(g, X):
 
     def kws():
         b = X.fn_body(font, "parse_cmap")
-        arms = re.findall(r'b("(?:\\.|[^"\\])*")\s*=>\s*(loop|break)', b)
-        if [a[1] for a in arms] != ["loop", "loop", "break"]:
-            raise ValueError("parse_cmap arms %r" % (arms,))
-        # which loop is which: the one with three parses is the range loop
-        first_loop = b[b.index(arms[0][0]):b.index(arms[1][0])]
-        second_loop = b[b.index(arms[1][0]):b.index(arms[2][0])]
-        if first_loop.count("parse_with_lexer(") != 2 or second_loop.count("parse_with_lexer(") != 3:
-            raise ValueError("parse_cmap loop shapes")
-        last = re.search(r"if\s+\*\w+\s*<\s*(\d+)\s*\{\s*\*\w+\s*\+=\s*(\d+)\s*;", second_loop)
-        if last.group(2) != "1":
-            raise ValueError("range increment")
-        return cl(rust_str(arms[0][0])), cl(rust_str(arms[1][0])), cl(rust_str(arms[2][0])), last.group(1)
+        # the section keywords: byte-string patterns are disjoint, the order of the arms is immaterial.  The loop with two
+        # parses per entry is the bfchar loop, the one with three the bfrange loop; the keyword that leaves the scan: `break`
+        char = rng = end = None
+        rng_loop = None
+        for arm in X.match_arms(b, r"\w+\.as_slice\(\)"):
+            for pt in arm.pats:
+                if not re.fullmatch(r'b' + STR, pt) or arm.guard is not None:
+                    continue
+                if re.match(r"loop\b", arm.raw):
+                    n = arm.raw.count("parse_with_lexer(")
+                    if n == 2 and char is None:
+                        char = pt[1:]
+                    elif n == 3 and rng is None:
+                        rng, rng_loop = pt[1:], arm.raw
+                    else:
+                        raise ValueError("parse_cmap loop shapes")
+                elif re.fullmatch(r"break\s*;?", arm.expr) and end is None:
+                    end = pt[1:]
+                else:
+                    raise ValueError("parse_cmap arm %s" % pt)
+        if not (char and rng and end):
+            raise ValueError("parse_cmap arms")
+        # the last byte of the destination is incremented while it is below a bound: the statements after
+        # `let last = ….last_mut().unwrap();` are RUN for every value of *last; the increment happens exactly below the bound
+        lm = re.search(r"let\s+(\w+)\s*=\s*\w+\.last_mut\(\)\.unwrap\(\)\s*;", rng_loop)
+        _, blk_end = X.enclosing_block(rng_loop, lm.start())
+        t = X.tabulate(rng_loop[lm.end():blk_end], lm.group(1), font, scopes=[b], is_expr=False)
+        incs = set(v for v, o in t.items() if any(re.fullmatch(r"\*" + lm.group(1) + r" \+= 1;?", e) for e in o.effects))
+        others = [e for o in t.values() for e in o.effects if not re.fullmatch(r"\*" + lm.group(1) + r" \+= 1;?", e)]
+        if others or incs != set(range(0, len(incs))) or not incs:
+            raise ValueError("range increment: %r %r" % (sorted(incs)[-3:], others[:2]))
+        return cl(rust_str(char)), cl(rust_str(rng)), cl(rust_str(end)), str(len(incs))
     g.attempt([("font_kw_bfchar", "list N"), ("font_kw_bfrange", "list N"), ("font_kw_endcmap", "list N"), ("font_range_last_max", "N")],
               "font: font.rs:parse_cmap", kws)
 
